@@ -725,7 +725,7 @@ class LamGen:
         self.n += 1
         v = 'T%d' % self.n
         k = r.choice(['single', 'single', 'tuple', 'tuple', 'tuple_same', 'tuple_ml', 'tuple_ml', 'nested', 'default',
-                      'call', 'comp', 'bs', 'after_str', 'dict', 'posonly_pair'])
+                      'call', 'comp', 'bs', 'after_str', 'dict', 'posonly_pair', 'non_ascii'])
         if k == 'single':
             t, _, _ = self.lam(multiline=r.random() < 0.2)
             if '\n' in t:
@@ -775,6 +775,10 @@ class LamGen:
             t, _, _ = self.lam()
             head, body = t.split(': ', 1)
             self.emitm(ind, '%s = keep(%s: \\\n%s  %s)' % (v, head, ind, body))
+        elif k == 'non_ascii':
+            t, _, _ = self.lam()
+            t2, _, _ = self.lam()
+            self.emitm(ind, '%s = keep(%s, len("h\u00e9llo \u4e16\u754c"), %s)  # \u00fcber' % (v, t, t2))
         elif k == 'after_str':
             t, _, _ = self.lam()
             t2, _, _ = self.lam()
